@@ -21,6 +21,7 @@ object-hook calls observed on the real decoder, and `splitPlain` must agree with
 import itertools
 import json
 import math
+import time
 import types
 
 from harness.core import PropSpec, Result, Violation, Ctx, run_model, CORPUS
@@ -314,14 +315,14 @@ def run_diff(a, b, path='run'):
 
 ATOMS = [None, True, False, 0, 1, -1, 2 ** 53, 2 ** 53 + 1, -2 ** 63, 10 ** 30, 1.0, -0.0, 0.1, 1e16, 1e-7, 5e-324,
          1.7976931348623157e308, -2.5, 1e22, 123456789.12345678,
-         '', 'a', 'q"uote', 'back\\slash', 'nul\x00mid', 'BOBO', 'xBOBO\x00', 'é', '\U0001F600', ' ', 'line\nbreak\t\r\x08\x0c',
+         '', 'a', '  ', 'a  b   c', 'q"uote', 'back\\slash', 'nul\x00mid', 'BOBO', 'xBOBO\x00', 'é', '\U0001F600', ' ', 'line\nbreak\t\r\x08\x0c',
          ' ', '}', ' } ', '{"completed": []}', '\x1f\x7f', '\\"', '\\u0041', 'type_simple', '日本語']
 SIX = [None, 7, 1.0, 'q"\\\x00BOBO', ['completed', 1.5, None], {'completed': ['x'], 'halted': {'updated': 1}, 'history': 'h', 'event_type': 'type_action', '': 0}]
 KEYS = ['completed', 'halted', 'updated', 'history', 'event_type', 'event_id', 'data', '', 'k', 'a b', 'q"', 'back\\', 'é', 'nul\x00', 'BOBO', '1']
 IDS = ['e', 'id_1', 'urn:x_17_0', 'a b', 'q"', 'b\\', 'é\U0001F600', 'n\x00', 'BOBO', ' ', '{', '"', 'type_complex', 'completed']
 GROUPS = ['', 'g', 'g2', 'a b', 'q"', 'é', 'completed', 'history', 'BOBO', 'n\x00', '\\', 'event_type']
 NAMES = ['ph', 'pat', 'p q', 'q"', 'é', 'x\x00', 'BOBO', 'completed', '\\']
-TS = [0, 1, -1, 1700000000, 2 ** 31, 2 ** 63, 10 ** 20, -5]
+TS = [0, 1, -1, 1700000000, 1700000000123, 1700000000123456789, 2 ** 31, 2 ** 53 + 1, 2 ** 63, 10 ** 20 + 1, -5]
 
 
 def gen_data(rng, depth):
@@ -358,7 +359,7 @@ def gen_hist(rng, depth, budget, allow_empty=False):
 
 def gen_run(rng, depth, budget=(3, 3)):
     return {'run_id': rng.choice(IDS), 'phen': rng.choice(NAMES), 'pat': rng.choice(NAMES + ['']),
-            'idx': rng.choice([1, 2, 3, 17, 2 ** 40]), 'hist': gen_hist(rng, depth, budget)}
+            'idx': rng.choice([1, 2, 3, 17, 2 ** 40, 2 ** 53 + 1]), 'hist': gen_hist(rng, depth, budget)}
 
 
 def ev_simple(data, i=0):
@@ -535,10 +536,13 @@ def parts_and_malformed(wire, res, rng, lines, expect):
         lines.append('ev ' + ' '.join(out))
         expect.append(t)
         from bobocep.cep.event import BoboEventFactory
-        d = event_diff(ob, BoboEventFactory.from_json_str(t), 'event')
         res.add_case({'event': e}, nontrivial=False)
-        if d:
-            res.violations.append(Violation('record-differs', 'BoboEventFactory.from_json_str(to_json_str()) differs: ' + d, {'event': e}))
+        try:
+            d = event_diff(ob, BoboEventFactory.from_json_str(t), 'event')
+            if d:
+                res.violations.append(Violation('record-differs', 'BoboEventFactory.from_json_str(to_json_str()) differs: ' + d, {'event': e}))
+        except Exception as ex:
+            res.violations.append(Violation('decode-raises', f'BoboEventFactory.from_json_str(to_json_str()) raises {ex.__class__.__name__}: {str(ex)[:120]}', {'event': e}))
         if e['k'] == 'C':
             out = []
             tok_hist(e['hist'], out)
@@ -558,6 +562,27 @@ def parts_and_malformed(wire, res, rng, lines, expect):
     for l in ['def R', 'msg 0 0', 'nonsense', 'def R x000061 x000061 x000061 1 H 1 x 1 S x00006 1 n', 'msg 5 - -', 'ev S x 1 n extra']:
         lines.append(l)
         expect.append('bad-op')
+
+
+def spaced_identity(res):
+    """a urn / id_key with an inner space must be rejected by BoboDevice (else the header cannot be split back)."""
+    spec = {'run_id': 'r', 'phen': 'p', 'pat': 'q', 'idx': 1, 'hist': [['g', [ev_simple({'a b': ' '})]]]}
+    for urn, key in (('urn a', 'k'), ('urn', 'k 1'), (' urn', 'k'), ('urn', 'k ')):
+        try:
+            w = Wire(urn=urn, key=key)
+        except Exception:
+            res.count('spaced_identity_rejected')
+            continue
+        w.urn, w.key = w.devs[0].urn, w.devs[0].id_key      # outer whitespace is stripped by BoboDevice
+        res.count('spaced_identity_accepted')
+        case = {'specs': [spec], 'layout': [[0], [], []], 'type': 0, 'flags': 0, 'urn': urn, 'key': key}
+        res.add_case(case, nontrivial=False)
+        try:
+            viol, _ = real_path(w, [spec], LAYOUTS[0], 0, 0)
+        except Exception as e:
+            viol = ('decode-raises', f'{e.__class__.__name__} on the wire path: {str(e)[:160]}')
+        if viol:
+            res.violations.append(Violation(viol[0], f'device urn={urn!r} id_key={key!r}: ' + viol[1], case))
 
 
 def boundary_notes(res):
@@ -583,7 +608,18 @@ def compare_with_model(ctx, res, lines, expect, ncases):
         res.notes.append('model driver unavailable: correspondence not run')
         res.disagreements.append({'correspondence': 'json', 'error': 'model driver did not build'})
         return
-    out = run_model('json', lines)
+    out = None
+    for attempt in range(12):       # another check's `lake build` may be relinking the shared driver binary right now
+        try:
+            out = run_model('json', lines)
+            break
+        except (RuntimeError, OSError) as e:
+            err = str(e)
+            time.sleep(5)
+    if out is None:
+        res.notes.append('model driver could not be run: ' + err[:200])
+        res.disagreements.append({'correspondence': 'json', 'error': 'model driver could not be run: ' + err[:200]})
+        return
     res.traces_validated = ncases
     for k, (m, i) in enumerate(zip(out, expect)):
         if m != i:
@@ -602,12 +638,25 @@ def run(ctx: Ctx) -> Result:
         c = ctx.replay['replay']
         if 'specs' in c:
             try:
+                if 'urn' in c:
+                    wire = Wire(urn=c['urn'], key=c['key'])
+                    wire.urn, wire.key = wire.devs[0].urn, wire.devs[0].id_key
                 viol, _ = real_path(wire, c['specs'], [list(l) for l in c['layout']], c['type'], c['flags'])
             except Exception as e:
                 viol = ('decode-raises', f'{e.__class__.__name__}: {str(e)[:160]}')
             res.add_case(c)
             if viol:
                 res.violations.append(Violation(viol[0], viol[1], c))
+        elif 'event' in c:
+            from bobocep.cep.event import BoboEventFactory
+            res.add_case(c)
+            try:
+                ob = build_event(c['event'])
+                d = event_diff(ob, BoboEventFactory.from_json_str(ob.to_json_str()), 'event')
+                if d:
+                    res.violations.append(Violation('record-differs', 'BoboEventFactory.from_json_str(to_json_str()) differs: ' + d, c))
+            except Exception as e:
+                res.violations.append(Violation('decode-raises', f'{e.__class__.__name__}: {str(e)[:160]}', c))
         return res
     prev = None
     wires = [wire, Wire(urn='u', key='k', aes='abcdefghijklmnop'), Wire(urn='ürn:é', key='k"\\', aes='0123456789abcdef01234567')]
@@ -618,6 +667,7 @@ def run(ctx: Ctx) -> Result:
         if len(res.violations) > 20:
             break
     parts_and_malformed(wire, res, ctx.rng, lines, expect)
+    spaced_identity(res)
     boundary_notes(res)
     compare_with_model(ctx, res, lines, expect, len(model_cases))
     res.exhaustive = True
@@ -641,6 +691,9 @@ def search(ctx: Ctx) -> Result:
             res.violations.append(Violation(viol[0], viol[1], {'specs': [spec], 'layout': [list(l) for l in layout], 'type': 0, 'flags': k % 2}))
             return True
         return False
+    spaced_identity(res)
+    if res.violations:
+        return res
     for k, spec in enumerate(itertools.chain(corpus_runs(), exhaustive_runs(False))):
         if one(spec, k):
             return res
